@@ -97,7 +97,8 @@ def compat32_check(data: bytes, exp: dict) -> list:
         errs.append("compat32 date %s" % m["Date"])
     for h, f in (("From", "from"), ("To", "to"), ("Cc", "cc"), ("Bcc", "bcc"), ("Reply-To", "reply_to")):
         vals = [re.sub(r"\r?\n(?=[ \t])", "", v) for v in m.get_all(h, [])]
-        got = [[_unfold_decode(n), a] for n, a in email.utils.getaddresses(vals)]
+        # the legacy reader reports an empty group ("undisclosed-recipients:;") as one ('', '') pair
+        got = [[_unfold_decode(n), a] for n, a in email.utils.getaddresses(vals) if (n, a) != ("", "")]
         want = [exp["from"]] if f == "from" else exp[f]
         if got != [list(x) for x in want]:
             errs.append("compat32 %s %s" % (f, short(got)))
@@ -196,7 +197,15 @@ def lib_compare(exp: dict, got: dict) -> list:
         if i < len(atts) and e[0] is None:
             atts[i] = (None,) + tuple(atts[i][1:])
     got["attachments"] = atts
-    return mail.diff(exp, got, "strip")
+    out = mail.diff(exp, got, "strip")
+    if any(f == "attachments" for f, _, _ in out):
+        # is the only difference the line-end convention of an embedded message/rfc822 (re-serialised by the reader)?
+        def eol(lst):
+            return [(a[0], a[1], a[2].replace(b"\r\n", b"\n") if a[1] == "message/rfc822" else a[2]) for a in lst]
+        e2, g2 = dict(exp, attachments=eol(exp["attachments"])), dict(got, attachments=eol(atts))
+        if not any(f == "attachments" for f, _, _ in mail.diff(e2, g2, "strip")):
+            out = [(("attachments~rfc822-eol-only" if f == "attachments" else f), e, g) for f, e, g in out]
+    return out
 
 
 def report(extractor, label, diffs, note=""):
@@ -282,6 +291,53 @@ def part_a():
             writer_check("A4 eml %s" % mail.deviation_key(s), errs)
     line("ok" if not bad2 else "info", "A4 eml all <=2-deviation specs: %d rendered, %d invalid" % (n2, bad2))
 
+    # boundary sweep of the header / body encoders: lengths around every folding and splitting limit
+    errs, n, nie = [], 0, 0
+    alph = "aé€中 "
+
+    def sweep(spec, label):
+        nonlocal n, nie
+        n += 1
+        try:
+            v = mail.validate(spec)
+            data = mail.eml(spec)
+        except NotImplementedError:
+            nie += 1
+            return
+        v += [("lint", x, "") for x in lint(data, True)]
+        for ln in data.split(b"\r\n"):
+            if ln.startswith((b"Subject:", b"From:", b"To:", b" =?", b" filename=\"=?")) and b"=?" in ln and len(ln) > 76:
+                v.append(("encoded-word line > 76", ln, len(ln)))
+        if v:
+            errs.append("%s: %s" % (label, short(v[0], 160)))
+
+    for ln_ in range(1, 100):
+        for off in range(4):
+            text = " ".join("".join(alph[(i + off) % 5] for i in range(ln_)).split())
+            if not text:
+                continue
+            for st in ("utf8-b", "utf8-q"):
+                sweep({"subject": [st, text]}, "subject %s len %d" % (st, ln_))
+            sweep({"subject": ["latin1-q", "".join(c for c in text if c in "aé ").strip() or "a"]}, "subject latin1-q len %d" % ln_)
+            sweep({"from": [text, "a@b.example"], "reply_to": [[text, "c@d.example"]] * 2}, "name len %d" % ln_)
+            for fs in ("rfc2231", "rfc2047"):
+                sweep({"structure": "mixed-plain-att-att", "attachments": [{"filename": text, "filename_style": fs, "data_hex": "00"}]},
+                      "filename %s len %d" % (fs, ln_))
+    for k in range(1, 40):
+        for wl in (1, 3, 7, 20, 90):
+            for gap in (" ", "  "):
+                text = gap.join("w" * wl + str(i) for i in range(k))
+                if len(text) < 900:
+                    sweep({"subject": ["ascii", text]}, "subject ascii %d words of %d" % (k, wl))
+                    if k > 12:
+                        sweep({"subject": ["long-folded", text]}, "subject long-folded %d words of %d" % (k, wl))
+    for ln_ in range(66, 82):
+        for ch in "a=é \t":
+            body = ("x" * ln_ + ch + "\n") * 2 + ch * 3 + "y"
+            for cte in ("quoted-printable", "base64", "8bit"):
+                sweep({"body_plain": body, "cte": cte}, "body line %d+%r %s" % (ln_, ch, cte))
+    writer_check("A8 boundary sweep (%d specs, %d inexpressible) vs policy.default + lint" % (n, nie), errs[:5])
+
     # mbox
     second = {"message_id": "<second.2@verif.example>", "subject": ["ascii", "Hscndm second"], "date": ["-0500", "2024-03-06T08:00:01"]}
     D = dict(mail.DOMAINS)
@@ -315,11 +371,10 @@ def part_a():
                     for i, (e, g) in enumerate(zip(exp["messages"], got)):
                         e = dict(e)
                         e["body_plain"] = e["body_plain_mboxo"]          # mailbox.mbox does not undo the escaping
-                        if sep == "crlf" or True:
-                            # mailbox.mbox leaves the separating blank line at the end of the message: compare modulo trailing newlines
-                            for f in ("body_plain", "body_html"):
-                                g[f] = g[f].replace("\r\n", "\n").rstrip("\n")
-                                e[f] = e[f].rstrip("\n")
+                        # mailbox.mbox leaves the separating blank line at the end of the message: compare modulo trailing newlines
+                        for f in ("body_plain", "body_html"):
+                            g[f] = g[f].replace("\r\n", "\n").rstrip("\n")
+                            e[f] = e[f].rstrip("\n")
                         errs += ["msg %d %s: expected %s got %s" % (i, f, short(x, 50), short(y, 50)) for f, x, y in mail.diff(e, g, "exact")]
                 writer_check(label, errs)
     n = 0
@@ -338,7 +393,7 @@ def part_a():
                 e = dict(e)
                 e["body_plain"] = e["body_plain_mboxo"]
                 for f in ("body_plain", "body_html"):
-                    g[f] = g[f].rstrip("\n")
+                    g[f] = g[f].replace("\r\n", "\n").rstrip("\n")
                     e[f] = e[f].rstrip("\n")
                 errs += ["msg %d %s: expected %s got %s" % (i, f, short(x, 50), short(y, 50)) for f, x, y in mail.diff(e, g, "exact")]
         if errs:
@@ -374,6 +429,7 @@ def extra_specs():
     yield {"charset": "unknown-8bit", "body_plain": D["body_plain"][1]}
     yield {"structure": "alternative", "cte": "base64"}
     yield {"structure": "html", "charset": "iso-8859-1"}
+    yield {"structure": "rfc822-attachment", "body_plain": ""}
 
 
 def part_b():
@@ -399,7 +455,27 @@ def part_b():
             DISAGREE[("eml", "COUNT")].append(key)
             line("EXTRACTOR-DISAGREES", "eml %s yielded %d results" % (key, len(res)))
             continue
-        report("eml", key, lib_compare(exp, lib_dict(res[0])))
+        diffs = lib_compare(exp, lib_dict(res[0]))
+        if any(a[0] is None for a in exp["attachments"]):
+            # a nameless attachment may get a placeholder name, but the same input must give the same output
+            again = lib_dict(list(read_eml_format_mail(io.BytesIO(data)))[0])
+            n1, n2 = [a[0] for a in lib_dict(res[0])["attachments"]], [a[0] for a in again["attachments"]]
+            if n1 != n2:
+                diffs.append(("attachments~nondeterministic-placeholder-filename", n1, n2))
+        # iterate_supported_attachments: every text/* attachment must come back as its text (declared charset applied)
+        want = []
+        for a in mail._attachments(mail.full_spec(s)):
+            if a["ctype"].lower() in ("text/plain", "text/csv"):
+                want.append(mail.norm_text(bytes.fromhex(a["data_hex"]).decode(mail._CODEC.get(a.get("charset") or "us-ascii", a.get("charset") or "ascii")), "strip"))
+        if want:
+            try:
+                subs = [mail.norm_text(x.get_full_text(), "strip") for x in res[0].iterate_supported_attachments()
+                        if type(x).__name__ == "PlainTextContent"]
+            except Exception as e:                   # noqa: BLE001
+                subs = ["raised %r" % (e,)]
+            if subs != want:
+                diffs.append(("iterate_supported_attachments~text", want, subs))
+        report("eml", key, diffs)
 
 
 def part_c():
